@@ -31,7 +31,7 @@ func init() {
 			"sees the table before or after a concurrent edit: both are accepted); the returned route is mutated to prove it is a copy; two lookups per run go through GetOrCreate to a fake camera, which records the URL it is asked for. " +
 			"distinct = event-log hash; non-trivial = at least one pre-emption",
 		Assumptions:    []string{"the small-scope table x path part is sampled input enumeration; what simulation adds is the concurrent edit and the pull leg", "route URLs are non-empty (outside the statement's quantifier)"},
-		RequiredProbes: []string{"c17.exact", "c17.directory", "c17.none", "c17.pull-url-checked"},
+		RequiredProbes: []string{"c17.exact", "c17.directory", "c17.none", "c17.pull-url-checked", "c17.table-intact-after-lookups"},
 	})
 }
 
@@ -258,8 +258,29 @@ func buildC17(tier string) sim.Scenario {
 		if w.Failed() {
 			return
 		}
-		// pull leg: the URL the camera is asked for, and the path the stream is published under
+		// lookups never modify the table: after all edits and lookups every entry reads exactly as it was last saved
 		final := snapshot()
+		listed := map[string]bool{}
+		for _, e := range route.All() {
+			m, ok := final[e.Pattern]
+			if !ok || listed[e.Pattern] {
+				w.Fail("C17/table-modified", "after the edits and lookups the table lists pattern=%q url=%q (twice=%v), which the history of saves and deletes does not give", e.Pattern, e.URL, listed[e.Pattern])
+				return
+			}
+			listed[e.Pattern] = true
+			if e.URL != m.URL || e.KeepAlive != m.Keep {
+				w.Fail("C17/table-modified", "the table entry for %q reads url=%q keepalive=%v; it was last saved as url=%q keepalive=%v and only lookups have touched it since", e.Pattern, e.URL, e.KeepAlive, m.URL, m.Keep)
+				return
+			}
+		}
+		for k := range final {
+			if !listed[k] {
+				w.Fail("C17/table-modified", "the route %q saved last is no longer listed after the lookups", k)
+				return
+			}
+		}
+		w.Probe("c17.table-intact-after-lookups")
+		// pull leg: the URL the camera is asked for, and the path the stream is published under
 		done := 0
 		for _, q := range queries {
 			f, pat, u, _ := c17Resolve(final, q)
